@@ -131,6 +131,15 @@ Proof.
   - destruct (spec_show a), (spec_show b); inversion H. exact I.
 Qed.
 
+Lemma spec_list_ok f l vs : spec_list f l = Ok vs -> forallb spec_simple vs = true.
+Proof.
+  revert vs. induction l as [|x r IH]; intros vs H; cbn [spec_list] in H.
+  - inversion H. reflexivity.
+  - destruct (f x) as [v| | |]; try discriminate. destruct (spec_simple v) eqn:Ev; [|discriminate].
+    destruct (spec_list f r) as [ws| | |] eqn:Er; try discriminate. inversion H. subst vs.
+    cbn [forallb]. rewrite Ev. exact (IH ws eq_refl).
+Qed.
+
 Theorem spec_eval_ok env e v : spec_eval env e = Ok v -> spec_val_ok v.
 Proof.
   revert v. induction e; intros v H; cbn [spec_eval] in H; try discriminate.
@@ -163,6 +172,8 @@ Proof.
   - destruct (spec_eval env e1) as [w| | |]; try discriminate. destruct (spec_truthy w) as [[]|]; try discriminate.
     + apply IHe2, H.
     + apply IHe3, H.
+  - destruct (spec_list (spec_eval env) es) as [vs| | |] eqn:El; try discriminate. inversion H. subst v.
+    cbn [spec_val_ok]. exact (spec_list_ok _ _ _ El).
 Qed.
 
 Corollary spec_eval_int_range env e z : spec_eval env e = Ok (VInt z) -> (- 2 ^ 53 <= z <= 2 ^ 53)%Z.
@@ -236,6 +247,22 @@ Proof.
   - rewrite (spec_eval_bin env BIn a (EVar x) va (VList t xs)) by (congruence || assumption).
     cbn [spec_binop]. rewrite Hm. reflexivity.
   - rewrite (spec_eval_bin env BNotIn a (EVar x) va (VList t xs)) by (congruence || assumption).
+    cbn [spec_binop]. rewrite Hm. reflexivity.
+  - apply spec_member_true. exact Hm.
+Qed.
+
+Lemma C08_membership_literal_proof : forall (env : spec_env) (a : expr) (es : list expr) (va : value) (vs : list value) (r : bool),
+  spec_eval env a = Ok va -> spec_list (spec_eval env) es = Ok vs -> spec_member va vs = Some r ->
+  spec_eval env (EBin BIn a (EArr es)) = Ok (VBool r) /\
+  spec_eval env (EBin BNotIn a (EArr es)) = Ok (VBool (negb r)) /\
+  (r = true <-> exists y, In y vs /\ spec_equal va y = Some true).
+Proof.
+  intros env a es va vs r Ha Hl Hm.
+  assert (Harr : spec_eval env (EArr es) = Ok (VList LAny vs)) by (cbn [spec_eval]; rewrite Hl; reflexivity).
+  split; [|split].
+  - rewrite (spec_eval_bin env BIn a (EArr es) va (VList LAny vs)) by (congruence || assumption).
+    cbn [spec_binop]. rewrite Hm. reflexivity.
+  - rewrite (spec_eval_bin env BNotIn a (EArr es) va (VList LAny vs)) by (congruence || assumption).
     cbn [spec_binop]. rewrite Hm. reflexivity.
   - apply spec_member_true. exact Hm.
 Qed.
